@@ -11,6 +11,8 @@ mod ops_apply;
 mod ops_case;
 mod ops_variant;
 mod ops_serde;
+mod ops_clap;
+mod ops_scope;
 
 /// every `ops_*.rs` owns some operations: `dispatch(fields) -> Option<String>` (None = not mine)
 const HANDLERS: &[fn(&[&str]) -> Option<String>] = &[
@@ -19,6 +21,8 @@ const HANDLERS: &[fn(&[&str]) -> Option<String>] = &[
     ops_case::dispatch,
     ops_variant::dispatch,
     ops_serde::dispatch,
+    ops_clap::dispatch,
+    ops_scope::dispatch,
 ];
 
 fn dispatch(fields: &[&str]) -> String {
@@ -52,4 +56,5 @@ fn main() {
         writeln!(out, "{}", text).unwrap();
     }
     out.flush().unwrap();
+    util::cleanup_scratch();
 }
